@@ -196,8 +196,25 @@ impl C11 {
             l.push(("toml::to_string(i128)", toml::to_string(&W { v }).map_err(|e| e.to_string())));
             l.push(("toml_edit::ser::to_string(i128)", toml_edit::ser::to_string(&W { v }).map_err(|e| e.to_string())));
             l.push(("toml::Table::try_from(i128)", toml::Table::try_from(W { v }).map(|x| x.to_string()).map_err(|e| e.to_string())));
+            // the value serializers take a bare number; shown as `v = <number>` so that it reads back
+            l.push(("toml::Value::try_from(i128)", toml::Value::try_from(v).map(|x| format!("v = {x}")).map_err(|e| e.to_string())));
+            l.push(("toml_edit::ser::ValueSerializer(i128)", serde::Serialize::serialize(&v, toml_edit::ser::ValueSerializer::new()).map(|x| format!("v = {x}")).map_err(|e| e.to_string())));
+            {
+                let mut out = String::new();
+                let r = serde::Serialize::serialize(&v, toml::ser::ValueSerializer::new(&mut out)).map(|_| ()).map_err(|e| e.to_string());
+                l.push(("toml::ser::ValueSerializer(i128)", r.map(|_| format!("v = {out}"))));
+            }
             if v >= 0 {
                 let u = v as u128;
+                l.push(("toml::Table::try_from(u128)", toml::Table::try_from(W { v: u }).map(|x| x.to_string()).map_err(|e| e.to_string())));
+                l.push(("toml::Value::try_from(u128)", toml::Value::try_from(u).map(|x| format!("v = {x}")).map_err(|e| e.to_string())));
+                l.push(("toml::Table::try_from([u128])", toml::Table::try_from(W { v: vec![u] }).map(|x| x.to_string()).map_err(|e| e.to_string())));
+                l.push(("toml_edit::ser::ValueSerializer(u128)", serde::Serialize::serialize(&u, toml_edit::ser::ValueSerializer::new()).map(|x| format!("v = {x}")).map_err(|e| e.to_string())));
+                {
+                    let mut out = String::new();
+                    let r = serde::Serialize::serialize(&u, toml::ser::ValueSerializer::new(&mut out)).map(|_| ()).map_err(|e| e.to_string());
+                    l.push(("toml::ser::ValueSerializer(u128)", r.map(|_| format!("v = {out}"))));
+                }
                 l.push(("toml::to_string(u128)", toml::to_string(&W { v: u }).map_err(|e| e.to_string())));
                 l.push(("toml_edit::ser::to_string(u128)", toml_edit::ser::to_string(&W { v: u }).map_err(|e| e.to_string())));
                 if let Ok(x) = u64::try_from(v) {
@@ -220,7 +237,11 @@ impl C11 {
                             if !fits {
                                 ctx.violation(&format!("inexact-serialization-succeeded:{name}"), format!("{name} accepted {v}, which does not fit i64, and wrote {text:?}"));
                             } else {
-                                let back = toml::from_str::<W<i64>>(&text);
+                                let back: Result<W<i64>, String> = if name.contains("[u128]") {
+                                    toml::from_str::<W<Vec<i64>>>(&text).map_err(|e| e.to_string()).and_then(|w| w.v.first().copied().map(|x| W { v: x }).ok_or_else(|| "empty".to_string()))
+                                } else {
+                                    toml::from_str::<W<i64>>(&text).map_err(|e| e.to_string())
+                                };
                                 if back.as_ref().ok().map(|w| w.v as i128) != Some(v) {
                                     ctx.violation(&format!("serialized-integer-differs:{name}"), format!("{name} wrote {text:?} for {v}; reading it back gives {back:?}"));
                                 }
@@ -553,7 +574,7 @@ impl Check for C11 {
         "C11"
     }
     fn workloads(&mut self, tier: Tier, _seed: u64) -> Vec<(String, u64)> {
-        let k = if tier == Tier::Quick { 1 } else { 20 };
+        let k = if tier == Tier::Quick { 10 } else { 80 };
         vec![
             ("int-boundaries".into(), int_boundaries().len() as u64),
             ("wide-boundaries".into(), wide_boundaries().len() as u64),
